@@ -121,6 +121,7 @@ type Obs struct {
 	StoreCalls      int    // SessionStorage.Store calls up to and including the probe request
 	ChatterFirst    string // after an abandoned exchange: the first of the five further server messages
 	AfterChatter    string // ... and store calls / client state / session file after them
+	StoreWindow     string // "", or "sent": an encrypted pong was sent while the first Store was running
 	StoreFail       string // "", "armed", or what the client did after the exchange whose session could not be stored
 	Redial          string // "", or what the client did after the server closed the connection of an abandoned exchange
 	PlainChatterOK  string // after a successful exchange: effect of the five unencrypted messages
@@ -187,6 +188,8 @@ type countingStore struct {
 	last   string
 	// failFirst: the first Store fails (full disk, missing directory): a key exchange that passed every check ends with an error
 	failFirst bool
+	// hook: runs inside the first Store, before the session is written (a slow storage)
+	hook func()
 }
 
 func (c *countingStore) Load() (*session.Session, error) { return c.inner.Load() }
@@ -195,7 +198,14 @@ func (c *countingStore) Store(s *session.Session) error {
 	c.stores++
 	c.last = fmt.Sprintf("key %d bytes, hash %d bytes, salt %x, host %q", len(s.Key), len(s.Hash), uint64(s.Salt), s.Hostname)
 	fail := c.failFirst && c.stores == 1
+	hook := c.hook
+	if c.stores != 1 {
+		hook = nil
+	}
 	c.mu.Unlock()
+	if hook != nil {
+		hook()
+	}
 	if fail {
 		return fmt.Errorf("verif: the session storage fails (injected)")
 	}
@@ -286,6 +296,20 @@ func runCase(c *Case) Obs {
 	if fault(c) == nil && c.Expect == "success" && (len(c.ID)+int(c.ID[len(c.ID)-1]))%5 == 2 {
 		store.failFirst = true
 		o.StoreFail = "armed"
+	}
+
+	// ... and one in five has a slow storage: while the session of the finished exchange is being stored the server already
+	// speaks - an encrypted pong, which changes nothing and needs no acknowledgement.  The receive loop has to take it like
+	// any message of a keyed connection; the request made afterwards must be answered.
+	if fault(c) == nil && c.Expect == "success" && (len(c.ID)+int(c.ID[len(c.ID)-1]))%5 == 3 {
+		store.hook = func() {
+			if err := srv.SendChatter("enc-pong", 0); err == nil {
+				o.StoreWindow = "sent"
+			} else {
+				o.StoreWindow = "not-sent:" + err.Error()
+			}
+			time.Sleep(120 * time.Millisecond)
+		}
 	}
 
 	script := &scriptReader{data: bytes.Join([][]byte{unhex(c.Nonce), unhex(c.NewNonce), unhex(c.B)}, nil), real: crand.Reader}
@@ -1098,7 +1122,7 @@ func writeOutputs(cs []Case, obs []Obs, outdir string) {
 			dash(o.SrvKey), dash(o.SrvKeyID), dash(o.SrvSalt), dash(o.SrvHash1),
 			strconv.Itoa(o.EncSeen), strconv.FormatBool(o.EncOpened), dash(o.EncPacket), fj, dash(tail(o.ErrText, 200)), dash(o.Rejected),
 			dash(o.PostReq), strconv.FormatBool(o.AfterEncrypted), strconv.Itoa(o.PostPlain), strconv.FormatBool(o.HangRetried),
-			strconv.Itoa(o.StoreCalls), dash(o.AfterChatter), dash(o.PlainChatterOK), dash(o.EncNotification), strconv.Itoa(o.LateStep), dash(o.Redial), dash(o.StoreFail))
+			strconv.Itoa(o.StoreCalls), dash(o.AfterChatter), dash(o.PlainChatterOK), dash(o.EncNotification), strconv.Itoa(o.LateStep), dash(o.Redial), dash(o.StoreFail), dash(o.StoreWindow))
 
 		// model input block
 		k := testKeys[c.Key%len(testKeys)]
